@@ -45,6 +45,10 @@ pub struct Case {
     /// (file selector, includer selector, position): the same file included more than once
     #[serde(default)]
     pub repeats: Vec<(u16, u16, u16)>,
+    /// the root file is opened through a path that goes through a symbolic link to its directory;
+    /// every path (reported and resolved) is then relative to the path as given, not to the link's target
+    #[serde(default)]
+    pub via_link: bool,
 }
 
 /// Files that are included from more than one place.  They are leaves (no includes of
@@ -309,7 +313,19 @@ pub fn oracle(case: &Case, st: &mut Stats) -> Verdict {
     let _ = std::fs::remove_dir_all(&base);
     std::fs::create_dir_all(&base).map_err(|e| crate::fw::Fail::new("infra", format!("cannot create {base:?}: {e}")))?;
     // the root file sits three levels down so that ".." components stay inside the case's own directory
-    let root = base.join("l1/l2/l3/l4/l5/l6/root.zone");
+    let real_dir = base.join("l1/l2/l3/l4/l5/l6");
+    let root = if case.via_link {
+        // base/k1/k2/k3/k4/k5/lnk -> the real directory (same depth, so ".." components behave alike)
+        let link_parent = base.join("l1/l2/l3/l4/l5");
+        std::fs::create_dir_all(&real_dir).map_err(|e| crate::fw::Fail::new("infra", format!("cannot create {real_dir:?}: {e}")))?;
+        let link = link_parent.join("lnk");
+        let _ = std::fs::remove_file(&link);
+        std::os::unix::fs::symlink("l6", &link).map_err(|e| crate::fw::Fail::new("infra", format!("cannot create the symbolic link {link:?}: {e}")))?;
+        st.class("root-file-opened-through-a-symbolic-link-to-its-directory");
+        link.join("root.zone")
+    } else {
+        real_dir.join("root.zone")
+    };
     let mut out = Rendered {
         files: BTreeMap::new(),
         expected: Vec::new(),
@@ -321,7 +337,8 @@ pub fn oracle(case: &Case, st: &mut Stats) -> Verdict {
         names: Vec::new(),
         shared_name_reused: false,
     };
-    let (names, reused) = assign_names(case, &root);
+    // (lexical path normalisation, which the naming uses, is not valid across a symbolic link)
+    let (names, reused) = if case.via_link { ((0..case.files.len()).map(|j| format!("f{j}.zone")).collect(), false) } else { assign_names(case, &root) };
     out.names = names;
     out.shared_name_reused = reused;
     let mut ctx = PCtx::default();
@@ -497,8 +514,9 @@ fn case_strategy() -> impl Strategy<Value = Case> {
         0u8..5,
         prop::option::weighted(0.7, crate::gen::pool_name(3)),
         prop_oneof![1 => Just(Vec::new()).boxed(), 1 => prop::collection::vec((any::<u16>(), any::<u16>(), any::<u16>()), 1..4).boxed()],
+        prop::bool::weighted(0.15),
     )
-        .prop_map(|(files, max_depth, root_origin, repeats)| Case { files, max_depth, root_origin, repeats })
+        .prop_map(|(files, max_depth, root_origin, repeats, via_link)| Case { files, max_depth, root_origin, repeats, via_link })
 }
 
 pub fn run(ctx: &Ctx, report: &mut Report) {
